@@ -28,7 +28,7 @@ OPS = ["getitem_tensor_neg", "matmul", "matvec", "rmatmul", "t_matmul", "to_dens
        "add_diagonal", "add_jitter", "add_low_rank", "cat_rows", "pivoted_cholesky", "preconditioner", "samples", "sqrt_inv_matmul", "sum_batch",
        "mul_scalar", "mul_op", "add_tensor", "add_op", "expand", "clone_detach", "double", "evaluate_kernel", "rebuild"]
 RECT_OPS = ["matmul", "matvec", "rmatmul", "t_matmul", "to_dense", "getitem", "mul_scalar", "add_tensor", "add_op", "expand", "clone_detach", "double", "rebuild", "sum_batch"]
-UTILS = ["linear_cg", "linear_cg_guess", "minres", "lanczos", "psd_safe_cholesky", "psd_safe_cholesky_jitter", "stable_qr", "stable_pinverse",
+UTILS = ["ciq", "ciq_reuse", "ciq_reuse_offset", "linear_cg", "linear_cg_guess", "minres", "lanczos", "psd_safe_cholesky", "psd_safe_cholesky_jitter", "stable_qr", "stable_pinverse",
          "toeplitz_matmul", "sym_toeplitz_derivative", "left_interp", "left_t_interp", "make_sparse", "make_sparse_allzero", "sparse_getitem",
          "sparse_getitem_empty", "sparse_repeat", "bdsmm", "apply_permutation", "inverse_permutation"]
 
@@ -312,6 +312,23 @@ def _run_util(case, ctx, g, rng):
         sh = h(torch.tensor([0.0, 0.5], dtype=torch.float64))
         tensors = dict(A=A, rhs=B, shifts=sh)
         thunk = lambda: minres(A.matmul, B, shifts=sh)  # noqa: E731
+    elif u in ("ciq", "ciq_reuse", "ciq_reuse_offset"):
+        # contour-integral quadrature; re-using a quadrature rule (weights= / shifts= handed back by the caller, as the backward pass of
+        # sqrt_inv_matmul does) with and without a shift offset
+        from linear_operator.utils.contour_integral_quad import contour_integral_quad
+
+        opd = DenseLinearOperator(A)
+        tensors = dict(A=A, rhs=B)
+        if u == "ciq":
+            thunk = lambda: contour_integral_quad(opd, B, inverse=True, num_contour_quadrature=7)  # noqa: E731
+        else:
+            with warnings.catch_warnings():
+                warnings.simplefilter("ignore")
+                _, w0, _, s0 = contour_integral_quad(DenseLinearOperator(A.clone()), B.clone(), inverse=True, num_contour_quadrature=7)
+            w0, s0 = h(w0.detach().clone()), h(s0.detach().clone())
+            tensors.update(weights=w0, shifts=s0)
+            off = 0.25 if u.endswith("offset") else 0
+            thunk = lambda: contour_integral_quad(opd, B, inverse=True, weights=w0, shifts=s0, num_contour_quadrature=7, shift_offset=off)  # noqa: E731
     elif u == "lanczos":
         iv = h(torch.randn(*batch, n, 1, generator=g, dtype=torch.float64))
         tensors = dict(A=A, init_vecs=iv)
